@@ -389,6 +389,8 @@ func checkC17(w *World, r *Report) {
 	r.Rule("R17.3", "DNS end-of-stream only after buffered data; client Close notifies the server first", 3)
 	r.Rule("R17.7", "every Write reports the full count on success (a short count aborts io.Copy and cuts the transfer)", 4)
 	c01WriteCountsRule(w, r, "R17.7")
+	r.Rule("R17.8", "a deadline armed on a connection is disarmed in both directions before the connection lives on as a session (a left-over write deadline loses the target's answer and the end-of-stream)", 1)
+	ruleDeadlinePairing(w, r, "R17.8")
 	r.Rule("R17.6", "after the first copier reported, no close waits for the second report", 1)
 	r.Rule("R17.5", "a reader+writer pair closes its write half on every path (the peer's end-of-stream)", 1)
 	r.Rule("R17.4", "open transfers are not cut by another logical connection's failure (who may close the shared session)", 2)
